@@ -23,9 +23,7 @@ use std::io;
 use std::panic::{catch_unwind, AssertUnwindSafe};
 
 const ML_COUNT: &str = "multiline-count-counts-matches";
-const F1: &str = "crlf-line-matches-only-through-cr";
 const ML_ONLY: &str = "multiline-only-matching-records";
-const CTX: &str = "line-matches-only-in-buffer-context";
 const ML_PANIC: &str = "multiline-lookahead-cut-match-beyond-block";
 
 fn viol(rep: &mut Report, kind: &str, class: &str, tie: &str, case: &str, detail: String) {
@@ -92,52 +90,6 @@ fn count_match_records(out: &[u8], o: &Opts) -> u64 {
             d > 0 && l.get(d) == Some(&b':')
         })
         .count() as u64
-}
-
-/// F1 (a C01 finding that shows through C10) on one reported line: under --crlf the searcher's fast path reports a
-/// line whose content (without CRLF) has no match, because the pattern matches only when the CR is visible.
-fn f1_line(o: &Opts, m: &RegexMatcher, l: &[u8]) -> bool {
-    use grep_matcher::Matcher;
-    if !o.crlf || o.invert {
-        return false;
-    }
-    let c = content(l, true);
-    c.len() + 2 == l.len() && m.find(c).ok().flatten().is_none() && m.find(&l[..l.len() - 1]).ok().flatten().is_some()
-}
-
-/// `line-matches-only-in-buffer-context` on one reported line (line-oriented search): the matcher finds no match in
-/// the line's own content (what the printers search since 0cdcce3) but does find one when the same bytes are
-/// searched inside the file — from the line's start, the haystack ending with the line's content — as the searcher's
-/// fast path does. Only look-behind can tell the two apart (e.g. `\B` after a stray UTF-8 continuation byte, where the
-/// regex engine's backward decoding reaches the previous line's terminator).
-fn ctx_line(o: &Opts, m: &RegexMatcher, input: &[u8], off: usize, l: &[u8]) -> bool {
-    use grep_matcher::Matcher;
-    if o.invert || input.get(off..off + l.len()) != Some(l) {
-        return false;
-    }
-    let c = content_o(o, l);
-    if m.find(c).ok().flatten().is_some() {
-        return false;
-    }
-    // the buffer the searcher saw starts at the file's start or (after a roll) at an earlier line's start
-    let mut starts = vec![0usize];
-    starts.extend(input[..off].iter().enumerate().filter(|(_, &b)| b == o.tb()).map(|(i, _)| i + 1));
-    starts.iter().any(|&s| s < off && m.find_at(&input[s..off + c.len()], off - s).ok().flatten().is_some())
-}
-
-/// class of one match message without submatch, by mechanism
-fn no_sub_class(rep: &mut Report, ml: bool, o: &Opts, m: &RegexMatcher, input: &[u8], off: usize, l: &[u8]) -> &'static str {
-    if ml {
-        ""
-    } else if f1_line(o, m, l) {
-        rep.branch(&format!("class:{}:attributed", F1));
-        F1
-    } else if ctx_line(o, m, input, off, l) {
-        rep.branch(&format!("class:{}:attributed", CTX));
-        CTX
-    } else {
-        ""
-    }
 }
 
 /// What the JSON match messages of one file show about the mechanisms behind the known-finding classes.
@@ -226,8 +178,7 @@ fn class_limit_by_matches(rep: &mut Report, ml: bool, o: &Opts, cm: u64, other: 
 }
 
 /// `multiline-only-matching-records` (a match spanning lines or an empty match really occurs in the file) /
-/// `crlf-line-matches-only-through-cr` / `line-matches-only-in-buffer-context` (every match message without submatch
-/// is such a line, and they account for the whole difference) for "--count-matches differs from the number of -o records".
+/// (line-oriented searches: no recorded class any more) for "--count-matches differs from the number of -o records".
 fn class_cm_vs_o(rep: &mut Report, ml: bool, o: &Opts, m: &RegexMatcher, input: &[u8], mech: &Mech, cm: u64, orec: u64) -> &'static str {
     if ml {
         // -o and --json stop at the same block under -m, so the JSON messages tell exactly how many records the
@@ -245,18 +196,9 @@ fn class_cm_vs_o(rep: &mut Report, ml: bool, o: &Opts, m: &RegexMatcher, input: 
         }
         return "";
     }
-    // every line without submatch is printed whole by -o (one record) and counts 0 matches: the lines of the two
-    // "reported by the searcher, no match for the printers" classes must account for the whole difference
-    if !mech.no_sub_lines.is_empty() && orec == cm + mech.no_sub_lines.len() as u64 {
-        if mech.no_sub_lines.iter().all(|l| f1_line(o, m, l)) {
-            rep.branch(&format!("class:{}:attributed", F1));
-            return F1;
-        }
-        if mech.no_sub_lines.iter().zip(&mech.no_sub_offs).all(|(l, &off)| f1_line(o, m, l) || ctx_line(o, m, input, off, l)) {
-            rep.branch(&format!("class:{}:attributed", CTX));
-            return CTX;
-        }
-    }
+    // (line-oriented: the two "reported by the searcher, no match for the printers" classes — F1 and the buffer-context
+    // one — were repaired by 4165f41; a line without submatch is a new violation now)
+    let _ = (o, m, input, mech, cm, orec);
     ""
 }
 
@@ -527,8 +469,8 @@ fn run_lib(case: &str, o: &Opts, drv: &mut Driver, rep: &mut Report) {
             }
             // R3: every reported matching line has at least one submatch
             for (l, &off) in mech.no_sub_lines.iter().zip(&mech.no_sub_offs) {
-                let class = no_sub_class(rep, ml, o, &matcher, input, off, l);
-                fail(rep, class, format!("JSON match message without submatch: {:?}", show(l)));
+                let _ = off;
+                fail(rep, "", format!("JSON match message without submatch: {:?}", show(l)));
             }
         }
         // R4: -l iff count > 0; --files-without-match is the complement
@@ -848,8 +790,8 @@ fn run_cli(case: &str, o: &Opts, args: &Args, drv: &mut Driver, rep: &mut Report
                 fail(rep, class, format!("{}: --count-matches {} but -o prints {} records", p, cm, orec));
             }
             for (l, &off) in mech.no_sub_lines.iter().zip(&mech.no_sub_offs) {
-                let class = no_sub_class(rep, ml, o, &matcher, file_of(p), off, l);
-                fail(rep, class, format!("{}: JSON match message without submatch: {:?}", p, show(l)));
+                let _ = off;
+                fail(rep, "", format!("{}: JSON match message without submatch: {:?}", p, show(l)));
             }
         }
         if l_set.contains(p) != (count > 0) {
@@ -923,7 +865,13 @@ fn run_cli(case: &str, o: &Opts, args: &Args, drv: &mut Driver, rep: &mut Report
         rep.branch("cli:stats-compared");
         // --quiet must only suppress output: with --stats (or --json) the search may not stop at the first
         // matching file (quit_after_match = quiet AND no stats), so the totals are the same sums
-        if let Some(qs) = run(&["-q", "--stats"]) {
+        if let Some(qs) = run(&["-q", "--stats"]).filter(|r| {
+            // (a run that was killed at the time limit has no output to compare; a panic is reported by the main runs)
+            if r.panicked {
+                rep.branch("cli:quiet-stats-run-failed");
+            }
+            !r.panicked
+        }) {
             let qb = stats_block(&qs.stdout);
             // mechanism of the multi-line counting class here: under -U -m N the quiet Summary sink stops a file after
             // N *matches*, the Standard sink behind plain --stats after N *blocks*: some file reaches N matches, and
